@@ -488,6 +488,21 @@ fn damages(items: &Items, rng: &mut Rng, thorough: bool) -> Vec<Damage> {
     if let Some(k) = keys.iter().find(|k| k.ends_with(".pack")) {
         out.push(Damage::Junk(format!("{}.pack", hexd(rng)), items[k].clone()));
     }
+    // self-consistent forged packs (the file name does match the bytes, no block names them): entries that
+    // *claim*, through the reserved hash field, to be an object that is already stored. Objects are addressed
+    // by the hash of their own bytes, so such a pack must stay without effect on every stored revision.
+    let mut forged = 0;
+    'forge: for k in keys.iter().filter(|k| k.ends_with(".pack")) {
+        for (o, l) in crate::refstore::pack_spans(&items[k]) {
+            if forged >= 4 {
+                break 'forge;
+            }
+            let d = sha_hex(&items[k][o..o + l]);
+            let body = if forged % 2 == 0 { format!("[{{\"#\":\"{}\",\"forged\":true}}]", d) } else { format!("[{{\"forged\":{}}},{{\"#\":\"{}\"}}]", forged, d) };
+            out.push(Damage::Junk(format!("{}.pack", sha_hex(body.as_bytes())), body.into_bytes()));
+            forged += 1;
+        }
+    }
     out
 }
 
